@@ -33,14 +33,9 @@ def run(path):
         prop = "C%02d" % k
         fired, err, allres = [], None, []
         try:
-            for rule in props.rules_for(prop):
-                res = rule(ctx)
-                for r in (res if isinstance(res, list) else [res]):
-                    allres.append(r)
-                    fired += ["%s %s" % (f.rule, f.construct) for f in r.findings]
-            g = unresolved_guard(ctx, allres)
-            if g:
-                err, fired = g, []
+            from rxsa.engine import run_rules
+            allres, err = run_rules(ctx, props.rules_for(prop))
+            fired = [] if err else ["%s %s" % (f.rule, f.construct) for r in allres for f in r.findings]
         except AnalysisError as e:
             err = str(e)
         except Exception as e:
